@@ -1,2 +1,179 @@
--- line-protocol driver for C06 (stub; replaced when the property is built)
-def main : IO Unit := IO.println "stub"
+import Verif.Model.Validity
+/-!
+  Line-protocol driver for C06 (validity arithmetic).
+
+  One case per line: `<op> key=value …` (single spaces).  Values:
+    int      decimal, optional leading `-`
+    time     `<sec>:<nsec>`  (sec = int64 seconds since 0001-01-01T00:00:00Z, Go's internal clock)
+    TD       `-` (zero) | `t<time>` (absolute) | `d<int>` (relative, ns)
+    u64      decimal; `-` = absent (for optional modifiers)
+    full     nine ints `minTLS,maxTLS,defTLS,minUser,maxUser,defUser,minHost,maxHost,defHost`
+    claims   `nil` or nine comma separated (`-` = nil pointer) in the same order
+  Ops:
+    claims a=<claims> p=<claims>
+        -> `a=bad` | `a=ok p=bad` | `a=ok p=ok eff=<full>`
+    x509 mode=def|lim lnb=<time> lna=<time> g=<full> p=<claims> bd= now=<time> vnow=<time>
+         snb=<TD> sna=<TD> cnb=<time> cna=<time>
+        -> `ok nb=<time> na=<time>` (+ ` cert=<sec>,<sec>` after softcas when cas=1) | `rej:<status>:<stage>`
+    ssh  mode=def|lim lna=<time> g= p= ct=<n> bd= now=<time> uva=<TD> uvb=<TD> tva=<u64|-> tvb=<u64|->
+         cva=<u64> cvb=<u64>
+    sshp … same with kva=<TD> kvb=<TD> (token options) instead of tva/tvb
+        -> `ok va=<u64> vb=<u64>` | `rej:<status>:<stage>` | `crash`
+    xrenew casnow=<time> bd= onb=<time> ona=<time>    -> `ok d=<seconds> nboff=<ns>` | `rej:500:cas`
+    sshrenew anow=<time> bd= ova=<u64> ovb=<u64> ct=  -> `ok d=<u64> vaoff=<int>` | `rej:400:renew` | `crash`
+    acme now=<time> def= rnb=<time> rna=<time>        -> `nb=<time> na=<time>`
+    overflow lo=<int> hi=<int> k=<int>                 -> the k-th wrap witness (seconds) for [lo,hi], see below
+-/
+open Verif Verif.Validity
+
+namespace C06
+
+def lookup (kv : List (String × String)) (k : String) : Option String :=
+  (kv.find? (·.1 = k)).map (·.2)
+
+def int? (t : String) : Option Int := t.toInt?
+
+def time? (t : String) : Option Int :=
+  match t.splitOn ":" with
+  | [a, b] => do pure ((← a.toInt?) * second + (← b.toInt?))
+  | _ => none
+
+def gtime? (t : String) : Option GTime :=
+  match t.splitOn ":" with
+  | [a, b] => do pure ⟨(← a.toInt?), (← b.toInt?)⟩
+  | _ => none
+
+def td? (t : String) : Option TD :=
+  if t = "-" then some {}
+  else if t.startsWith "t" then (time? (t.drop 1).toString).map fun x => { t := x }
+  else if t.startsWith "d" then (int? (t.drop 1).toString).map fun x => { d := x }
+  else none
+
+def u64? (t : String) : Option U64 := t.toNat?.map (BitVec.ofNat 64)
+
+def optU64? (t : String) : Option (Option U64) :=
+  if t = "-" then some none else (u64? t).map some
+
+def full? (t : String) : Option Full :=
+  match (t.splitOn ",").mapM int? with
+  | some [a, b, c, d, e, f, g, h, i] => some ⟨a, b, c, d, e, f, g, h, i⟩
+  | _ => none
+
+def optInt? (t : String) : Option (Option Int) :=
+  if t = "-" then some none else (int? t).map some
+
+def claims? (t : String) : Option (Option Claims) :=
+  if t = "nil" then some none else
+  match (t.splitOn ",").mapM optInt? with
+  | some [a, b, c, d, e, f, g, h, i] => some (some ⟨a, b, c, d, e, f, g, h, i⟩)
+  | _ => none
+
+def timeS (t : Int) : String := s!"{t / second}:{t % second}"
+
+def fullS (f : Full) : String :=
+  s!"{f.minTLS},{f.maxTLS},{f.defTLS},{f.minUser},{f.maxUser},{f.defUser},{f.minHost},{f.maxHost},{f.defHost}"
+
+/-- HTTP status and stage of a refusal, as the harness observes it -/
+def rejS : Rej → String
+  | .credNotBefore => "403:mod" | .credNotAfter => "403:mod"
+  | .past => "400:val" | .naBeforeNb => "400:val" | .tooShort => "403:val" | .tooLong => "403:val"
+  | .lifetime0 => "500:cas"
+  | .afterGtBefore => "400:mv"
+  | .badType => "0:mod"
+  | .typeUnset => "400:val" | .typeUnknown => "400:val" | .vaZero => "400:val" | .vbBeforeVa => "400:val"
+  | .dvaZero => "403:dval" | .dpast => "403:dval" | .dvbBeforeVa => "403:dval" | .dbadType => "403:dval"
+  | .noValidity => "400:renew"
+
+def outS {α : Type} (f : α → String) : Out α → String
+  | .ok a => "ok " ++ f a
+  | .rej r => "rej:" ++ rejS r
+  | .crash => "crash"
+
+def claimer? (kv : List (String × String)) : Option Claimer := do
+  pure ⟨(← full? (← lookup kv "g")), (← claims? (← lookup kv "p"))⟩
+
+/-- k-th (0-based) number of seconds `s > 9223372036` with `lo ≤ toInt64(s·10⁹ mod 2⁶⁴) ≤ hi`
+    among s = 9223372037, 9223372038, … (bounded scan; the harness uses it to aim at D6). -/
+def overflowWitness (lo hi : Int) (k : Nat) : Option Int :=
+  let rec go (s : Int) (k fuel : Nat) : Option Int :=
+    match fuel with
+    | 0 => none
+    | fuel + 1 =>
+      let d := secsToDur s
+      if lo ≤ d ∧ d ≤ hi then (if k = 0 then some s else go (s + 1) (k - 1) fuel)
+      else go (s + 1) k fuel
+  go 9223372037 k 200000
+
+def eval (line : String) : Option String := do
+  let fs := fields line
+  let op ← fs.head?
+  let kv := fs.tail.filterMap fun f =>
+    match f.splitOn "=" with
+    | [k, v] => some (k, v)
+    | _ => none
+  let get := lookup kv
+  match op with
+  | "claims" =>
+    let a ← claims? (← get "a")
+    let p ← claims? (← get "p")
+    let ac : Claimer := ⟨hardcoded, a⟩
+    if !ac.validate then pure "a=bad"
+    else match effective a p with
+      | none => pure "a=ok p=bad"
+      | some c => pure s!"a=ok p=ok eff={fullS c.merged}"
+  | "x509" =>
+    let cl ← claimer? kv
+    let mode ← get "mode"
+    let m ← (if mode = "def" then some Mode.dflt
+             else do pure (Mode.limit (← time? (← get "lnb")) (← time? (← get "lna"))))
+    let so : SignOpts := { nb := (← td? (← get "snb")), na := (← td? (← get "sna")), backdate := (← int? (← get "bd")) }
+    let c : Cert := ⟨(← time? (← get "cnb")), (← time? (← get "cna"))⟩
+    let now ← time? (← get "now")
+    let vnow ← time? (← get "vnow")
+    match x509Leaf cl m now vnow c so with
+    | .ok leaf =>
+      let head := s!"ok nb={timeS leaf.nb} na={timeS leaf.na}"
+      if (get "cas") = some "1" then
+        match softcasCreate now leaf so.backdate with
+        | .ok c => pure (head ++ s!" cert={c.nb / second},{c.na / second}")
+        | r => pure (outS (fun _ => "") r)
+      else pure head
+    | r => pure (outS (fun _ => "") r)
+  | "ssh" | "sshp" =>
+    let cl ← claimer? kv
+    let mode ← get "mode"
+    let m ← (if mode = "def" then some SshMode.dflt else do pure (SshMode.limit (← gtime? (← get "lna"))))
+    let bd ← int? (← get "bd")
+    let user : SshOpts := { va := (← td? (← get "uva")), vb := (← td? (← get "uvb")), backdate := bd }
+    let c0 : SshCert := ⟨(← u64? (← get "cva")), (← u64? (← get "cvb")), (← (← get "ct").toNat?)⟩
+    let now ← time? (← get "now")
+    let r ← (if op = "ssh" then do
+               let mods := ((← optU64? (← get "tva")), (← optU64? (← get "tvb")))
+               pure (sshSignWith cl m now user mods c0)
+             else do
+               let tok : SshOpts := { va := (← td? (← get "kva")), vb := (← td? (← get "kvb")) }
+               pure (sshSign cl m now user tok c0))
+    pure (outS (fun c => s!"va={c.va.toNat} vb={c.vb.toNat}") r)
+  | "xrenew" =>
+    let casnow ← time? (← get "casnow")
+    let bd ← int? (← get "bd")
+    let old : Cert := ⟨(← time? (← get "onb")), (← time? (← get "ona"))⟩
+    pure (outS (fun c => s!"d={(c.na - c.nb) / second} nboff={c.nb - trunc (casnow - bd)}") (x509Renew casnow bd old))
+  | "sshrenew" =>
+    let anow ← time? (← get "anow")
+    let bd ← int? (← get "bd")
+    let old : SshCert := ⟨(← u64? (← get "ova")), (← u64? (← get "ovb")), (← (← get "ct").toNat?)⟩
+    pure (outS (fun c => s!"d={(c.vb - c.va).toNat} vaoff={(c.va.toNat : Int) - unixOf (anow - bd)}") (sshRenewDates anow bd old))
+  | "acme" =>
+    let now ← time? (← get "now")
+    let o := acmeOrderDates now (← int? (← get "def")) (← time? (← get "rnb")) (← time? (← get "rna"))
+    pure s!"nb={timeS o.nb} na={timeS o.na}"
+  | "overflow" =>
+    match overflowWitness (← int? (← get "lo")) (← int? (← get "hi")) (← (← get "k").toNat?) with
+    | some s => pure s!"s={s}"
+    | none => pure "none"
+  | _ => none
+
+end C06
+
+def main : IO Unit := Verif.lineLoop fun l => (C06.eval l).getD "parse-error"
